@@ -5,7 +5,7 @@ From Coq Require Import List ZArith NArith Bool Init.Byte.
 Import ListNotations.
 
 (* dec.Error classes that the buffer primitives can produce *)
-Inductive errk := EEOF | EInvalidUTF8.
+Inductive errk := EEOF | EInvalidUTF8 | ENegLen.      (* ENegLen: DecodeError("hprose/io: negative length") *)
 
 (* places where Go would panic on the modelled paths *)
 Inductive psite :=
@@ -130,22 +130,23 @@ Fixpoint next_loop (fuel : nat) (d : dst) (n : nat) (data : list byte) : res (li
     end
   end.
 
-(* func (dec *Decoder) next(n int) (data []byte, safe bool); None is the nil slice *)
+(* func (dec *Decoder) next(n int) (data []byte, safe bool); None is the nil slice.
+   After the emptiness test:  if n < 0 { if dec.Error == nil { dec.Error = DecodeError("negative length") }; return nil, true }
+   and the copy is made with capacity min(n, remain+len(dec.buf)) -- append grows it (no observable effect). *)
 Definition next (n : Z) (d : dst) : res (option (list byte) * bool * dst) :=
   match ensure d with
   | Ok (false, d1) => Ok (None, true, d1)
   | Ok (true, d1) =>
+      if (n <? 0)%Z then Ok (None, true, set_err d1 ENegLen) else
       let remain := (Z.of_nat (tail d1) - Z.of_nat (head d1))%Z in
       if (n <=? remain)%Z then
-        if (n <? 0)%Z then Panic PNextNeg            (* dec.buf[head:head+n] with n < 0 *)
-        else
           let k := Z.to_nat n in
           match slice (buf d1) (head d1) (head d1 + k) with
           | Some x => Ok (Some x, false, set_head d1 (head d1 + k))
           | None => Panic PSlice
           end
       else
-        if (remain <? 0)%Z then Panic PNextMake      (* make([]byte, remain, n) with remain < 0 *)
+        if (remain <? 0)%Z then Panic PNextMake      (* make([]byte, remain, ..) with remain < 0 *)
         else
           match slice (buf d1) (head d1) (tail d1) with
           | Some x =>
@@ -502,7 +503,7 @@ Fixpoint refill_loop (fuel : nat) (d : dst) (rem : Z) (data : list byte) : res (
            if remains > 0 || (remains == 0 && utf16Length <= 0) { dec.head += off
               if data == nil { return buf[:off], false }
               data = append(data, buf[:off]...); return }
-           if !safe { safe = true; data = make([]byte, 0, utf16Length*3) }
+           if !safe { safe = true; data = make([]byte, 0, capacity) }   (capacity <= len(buf)+len(dec.buf), never negative)
            data = append(data, buf...)
            if !dec.loadMore() { if remains < 0 { if dec.Error == nil { dec.Error = ErrInvalidUTF8 } }; return }
            <refill loop>
@@ -534,7 +535,7 @@ Fixpoint slow_loop (fuel : nat) (d : dst) (n length_ : Z) (data : option (list b
             end
           end
         else
-          if negb safe && (n1 * 3 <? 0)%Z then Panic PStrMake else
+          (* data = make([]byte, 0, capacity) with a capacity that can not be negative (/repo 2dd77fe) *)
           let dt := match data with Some x => x | None => [] end in
           let data2 := dt ++ w in
           match loadMore d with
@@ -578,6 +579,8 @@ Definition readStringAsBytes (n : Z) (d : dst) : res (option (list byte) * bool 
         | OutOfFuel => OutOfFuel
         | Ok None => Ok (None, false, set_err d1 EInvalidUTF8)
         | Ok (Some off) =>
+          (* if off > len(buf) { dec.Error = ErrInvalidUTF8 (if nil); return nil }   (/repo d6dce2e) *)
+          if length w <? off then Ok (None, false, set_err d1 EInvalidUTF8) else
           match slice (buf d1) (head d1) (head d1 + off) with
           | None => Panic PStrFast
           | Some x => Ok (Some x, false, set_head d1 (head d1 + off))
@@ -684,7 +687,7 @@ Definition s_next (n : Z) (s : sst) : res (option (list byte) * sst) :=
   match fst s with
   | [] => Ok (None, ([], or_err (snd s) EEOF))
   | bs =>
-    if (n <? 0)%Z then Panic PNextNeg else
+    if (n <? 0)%Z then Ok (None, (bs, or_err (snd s) ENegLen)) else
     let k := Z.to_nat n in
     if k <=? length bs then Ok (Some (firstn k bs), (skipn k bs, snd s))
     else Ok (Some bs, ([], or_err (snd s) EEOF))
